@@ -519,7 +519,7 @@ class ManifestContext:
         clk_cgi_params = options.generate_cgi_parameters(
             use=OptionUsage.TIME, exclude=exclude)
 
-        if options.videoErrors:
+        if options.videoErrors and video.representations:
             times = self.calculate_injected_error_segments(
                 options.videoErrors,
                 self.now,
@@ -540,7 +540,7 @@ class ManifestContext:
                     options.segmentTimeline, self.timing_ref)
                 aud_cgi_params['aerr'] = times
 
-        if options.videoCorruption:
+        if options.videoCorruption and video.representations:
             errs = [
                 (None, int(tc, 10) if tc.isdigit() else from_isodatetime(tc))
                 for tc in options.videoCorruption]
